@@ -1335,10 +1335,10 @@ class Node:
 
         See also :ref:`iteration-callbacks`.
         """
-        if data:
+        if data is not None:
             assert data_id is None
             data_id = self._tree.calc_data_id(data)
-        if data_id:
+        if data_id is not None:
             assert match is None
             res = [
                 n for n in self.iterator(add_self=add_self) if n._data_id == data_id
